@@ -287,6 +287,13 @@ def mutants(tg, parent, rng, tags=('C01', 'C02', 'C05', 'struct'), horizon_env=N
             if avail:
                 wrong_ = [pk for pk in keys.pks if pk != avail[0][1][1]][0]
                 add(lab + '+signed-by-other-key', 'C01', [spend([avail[0]], sign_with={avail[0][0]: wrong_})], ov=ovd)
+    if height > 2:
+        # a block that reports an EARLIER height consistently (summary, reward data, evidence), without claiming a reward /
+        # claiming that height's subsidy
+        for tag_ in ('C02', 'C05'):
+            add('earlier-height-consistently-no-reward', tag_, [], ov={'height': 1, 'cb_height': 1, 'evidence_height': 1}, reward=0)
+            add('earlier-height-consistently-its-subsidy', tag_, [], ov={'height': 1, 'cb_height': 1, 'evidence_height': 1},
+                reward=env.subsidy(1))
     add('height-plus-two', 'C05', [], ov={'height': height + 1, 'cb_height': height + 1})
     add('height-same-as-parent', 'C05', [], ov={'height': height - 1, 'cb_height': height - 1})
     add('reward-height-differs', 'C05', [], ov={'cb_height': height + 1})
@@ -310,6 +317,25 @@ def mutants(tg, parent, rng, tags=('C01', 'C02', 'C05', 'struct'), horizon_env=N
     add('no-transactions', 'struct', [], first=[])
     add('two-reward-transactions', 'struct', [coinbase(height, 1, miner, b'second')])
     add('reward-data-201-bytes', 'struct', [], cbdata=b'y' * 201)
+    if len(avail) >= 80:
+        # large blocks / large transactions (a validator may treat them differently from small ones)
+        many = avail[:70]
+        txs_ok = [spend([a]) for a in many]
+        add('control-70-transactions', 'C02', txs_ok, expect='accept')
+        add('control-70-transactions', 'C01', txs_ok, expect='accept')
+        k_ = 41
+        over = list(txs_ok)
+        over[k_] = spend([many[k_]], outs=[(many[k_][1][0] + 1, keys.pks[1])])
+        add('block-of-70-transactions-one-overspends-reward-lowered', 'C02', over, reward=sub - 1)
+        badsig = list(txs_ok)
+        wrong70 = [pk for pk in keys.pks if pk != many[k_][1][1]][0]
+        badsig[k_] = spend([many[k_]], sign_with={many[k_][0]: wrong70})
+        add('block-of-70-transactions-one-signed-by-other-key', 'C01', badsig)
+        ins17 = avail[60:77]
+        add('control-17-inputs', 'C01', [spend(ins17)], expect='accept')
+        wrong17 = [pk for pk in keys.pks if pk != ins17[11][1][1]][0]
+        add('transaction-of-17-inputs-one-signed-by-other-key', 'C01', [spend(ins17, sign_with={ins17[11][0]: wrong17})])
+        add('transaction-of-17-inputs-overspends', 'C02', [spend(ins17, outs=[(sum(a[1][0] for a in ins17) + 1, keys.pks[1])])], reward=sub - 1)
     if avail:
         add('first-transaction-not-reward', 'struct', [], first=[spend([avail[0]])])
     return out
